@@ -61,6 +61,8 @@ def gen_cases(tier, seed):
     for p in range(1, 9):
         for init in (False, True):
             c.append({'k': 'debounce', 'p': p, 'init': init})
+    # every utility also under an active-low reset (enable/disable of dividers goes through ctx.or_reset)
+    c += [dict(x, al=True) for i, x in enumerate(c) if i % 3 == 0 or x['k'] in ('clkdiv', 'toggle') and i % 2 == 0]
     for i, x in enumerate(c):
         x['seed'] = seed * 131 + i
     return c
@@ -87,17 +89,22 @@ def v(x):
 
 
 def start(comp, extra):
-    init = {'clk': 0, 'rst': 1}
+    init = {'clk': 0, 'rst': 0 if _AL[0] else 1}
     init.update(extra)
     sim = comp.sim(init=init)
     sim.clock(n=2)
-    sim.set('rst', 0)
+    sim.set('rst', 1 if _AL[0] else 0)
     sim.settle()
     sim.events.clear()
     return sim
 
 
-CTX = "ctx = std.SequentialContext(std.Clock(self.clk), std.Reset(self.rst))"
+_AL = [False]      # reset polarity of the current case (active low for every third case)
+
+
+def ctx_line():
+    return ("ctx = std.SequentialContext(std.Clock(self.clk), std.Reset(self.rst, active_low=True))" if _AL[0]
+            else "ctx = std.SequentialContext(std.Clock(self.clk), std.Reset(self.rst))")
 
 
 # ------------------------------------------------------------------------------------------------ wait_for
@@ -107,17 +114,17 @@ def run_wait(case, cnt, rnd):
     az = ", allow_zero=True" if case.get('allow_zero') else ""
     nmax = None
     if k == 'wait':
-        arch = [CTX, "@ctx", "async def proc():", "    await self.go", "    self.m1 <<= ~self.m1", f"    await std.wait_for({case['n']}{az})", "    self.m2 <<= ~self.m2"]
+        arch = [ctx_line(), "@ctx", "async def proc():", "    await self.go", "    self.m1 <<= ~self.m1", f"    await std.wait_for({case['n']}{az})", "    self.m2 <<= ~self.m2"]
         expect = lambda nv: case['n']      # noqa
     elif k == 'wait_rt':
         w = case['w']
         ports[1] = f"n = Port.input(Unsigned[{w}])"
-        arch = [CTX, "@ctx", "async def proc():", "    await self.go", "    self.m1 <<= ~self.m1", f"    await std.wait_for(self.n{az})", "    self.m2 <<= ~self.m2"]
+        arch = [ctx_line(), "@ctx", "async def proc():", "    await self.go", "    self.m1 <<= ~self.m1", f"    await std.wait_for(self.n{az})", "    self.m2 <<= ~self.m2"]
         expect = lambda nv: nv             # noqa
         nmax = (1 << w) - 1
     elif k == 'waiter':
         a, b = case['a'], case['b']
-        arch = [CTX, f"waiter = std.Waiter({max(a, b) + 2})", "@ctx", "async def proc():", "    await self.go", "    self.m1 <<= ~self.m1",
+        arch = [ctx_line(), f"waiter = std.Waiter({max(a, b) + 2})", "@ctx", "async def proc():", "    await self.go", "    self.m1 <<= ~self.m1",
                 f"    await waiter.wait_for({a})", "    self.m2 <<= ~self.m2", "    await self.go", "    self.m1 <<= ~self.m1",
                 f"    await waiter.wait_for({b})", "    self.m2 <<= ~self.m2"]
         seq = [a, b]
@@ -125,7 +132,7 @@ def run_wait(case, cnt, rnd):
     elif k == 'waiter_rt':
         w = case['w']
         ports[1] = f"n = Port.input(Unsigned[{w}])"
-        arch = [CTX, f"waiter = std.Waiter({(1 << w) - 1})", "@ctx", "async def proc():", "    await self.go", "    self.m1 <<= ~self.m1",
+        arch = [ctx_line(), f"waiter = std.Waiter({(1 << w) - 1})", "@ctx", "async def proc():", "    await self.go", "    self.m1 <<= ~self.m1",
                 "    await waiter.wait_for(self.n)", "    self.m2 <<= ~self.m2"]
         expect = lambda nv: nv             # noqa
         nmax = (1 << w) - 1
@@ -181,7 +188,7 @@ def run_delay(case, cnt, rnd):
     n = case['n']
     init = ", initial=Unsigned[3](5)" if case['initial'] else ""
     ports = ["x = Port.input(Unsigned[3])", "o = Port.output(Unsigned[3], default=0)", "ref = Port.output(Unsigned[3], default=0)", "l1 = Port.output(Unsigned[3], default=0)"]
-    arch = [CTX, "@ctx", "def proc():", f"    self.o <<= std.delayed(self.x, {n}{init})", "    self.ref <<= self.x",
+    arch = [ctx_line(), "@ctx", "def proc():", f"    self.o <<= std.delayed(self.x, {n}{init})", "    self.ref <<= self.x",
             f"    line = std.DelayLine(self.x, {max(n, 1)}{init})", f"    self.l1 <<= line[{min(1, max(n, 1))}]"]
     cname, src = build(ports, arch)
     try:
@@ -225,11 +232,11 @@ def run_counter(case, cnt, rnd):
     if case['k'] == 'counter':
         lim = case['limit']
         ports = ["c = Port.output(Unsigned[5])"]
-        arch = [CTX, f"cn = std.continuous_counter(ctx, {lim})", "std.concurrent_assign(self.c, cn)"]
+        arch = [ctx_line(), f"cn = std.continuous_counter(ctx, {lim})", "std.concurrent_assign(self.c, cn)"]
     else:
         w = case['w']
         ports = [f"lim = Port.input(Unsigned[{w}])", "c = Port.output(Unsigned[5])"]
-        arch = [CTX, "cn = std.continuous_counter(ctx, self.lim)", "std.concurrent_assign(self.c, cn)"]
+        arch = [ctx_line(), "cn = std.continuous_counter(ctx, self.lim)", "std.concurrent_assign(self.c, cn)"]
     cname, src = build(ports, arch)
     try:
         comp = compile_case(cname, src)
@@ -276,14 +283,14 @@ def run_clkdiv(case, cnt, rnd):
     if rt:
         w = case['w']
         ports = [f"per = Port.input(Unsigned[{w}])", "en = Port.input(Bit)", "dis = Port.input(Bit)"] + obs_ports()
-        arch = [CTX, "d = std.ClockDivider(ctx, self.per)"] + obs_arch('d')
+        arch = [ctx_line(), "d = std.ClockDivider(ctx, self.per)"] + obs_arch('d')
         tas = False
         ds = False
         req = False
     else:
         p, tas, req, ds = case['p'], case['tas'], case['req'], case['ds']
         ports = ["en = Port.input(Bit)", "dis = Port.input(Bit)"] + obs_ports()
-        arch = [CTX, f"d = std.ClockDivider(ctx, {p}, tick_at_start={tas}, require_enable={req}, default_state={ds})"] + obs_arch('d') + \
+        arch = [ctx_line(), f"d = std.ClockDivider(ctx, {p}, tick_at_start={tas}, require_enable={req}, default_state={ds})"] + obs_arch('d') + \
                ["@ctx", "def ctl():", "    if self.en:", "        d.enable()", "    elif self.dis:", "        d.disable()"]
     cname, src = build(ports, arch)
     try:
@@ -331,7 +338,7 @@ def run_clkdiv(case, cnt, rnd):
     traces = []
     for scenario in ('powerup', 'reset'):
         if scenario == 'powerup':
-            sim = comp.sim(init={'clk': 0, 'rst': 0, 'en': 0, 'dis': 0})
+            sim = comp.sim(init={'clk': 0, 'rst': 1 if _AL[0] else 0, 'en': 0, 'dis': 0})
             sim.events.clear()
         else:
             sim = start(comp, {'en': 0, 'dis': 0})
@@ -381,12 +388,12 @@ def run_toggle(case, cnt, rnd):
     if rt:
         w = case['w']
         ports = [f"f = Port.input(Unsigned[{w}])", f"s = Port.input(Unsigned[{w}])"] + obs_ports()
-        arch = [CTX, "tg = std.ToggleSignal(ctx, self.f, self.s)"] + obs_arch('tg')
+        arch = [ctx_line(), "tg = std.ToggleSignal(ctx, self.f, self.s)"] + obs_arch('tg')
         fs = False
     else:
         f, s, fs, ds, req = case['f'], case['s'], case['fs'], case['ds'], case['req']
         ports = ["en = Port.input(Bit)"] + obs_ports()
-        arch = [CTX, f"tg = std.ToggleSignal(ctx, {f}, {s}, first_state={fs}, default_state={ds}, require_enable={req})"] + obs_arch('tg') + \
+        arch = [ctx_line(), f"tg = std.ToggleSignal(ctx, {f}, {s}, first_state={fs}, default_state={ds}, require_enable={req})"] + obs_arch('tg') + \
                ["@ctx", "def ctl():", "    if self.en:", "        tg.enable()"]
     cname, src = build(ports, arch)
     try:
@@ -488,7 +495,7 @@ class Deb(explore.Harness):
 def run_debounce(case, cnt, rnd):
     p, init = case['p'], case['init']
     ports = ["x = Port.input(Bit)", "o = Port.output(Bit)"]
-    arch = [CTX, f"db = std.debounce(ctx, self.x, {p}, initial={init})", "std.concurrent_assign(self.o, db)"]
+    arch = [ctx_line(), f"db = std.debounce(ctx, self.x, {p}, initial={init})", "std.concurrent_assign(self.o, db)"]
     cname, src = build(ports, arch)
     try:
         comp = compile_case(cname, src)
@@ -514,6 +521,7 @@ def run_case(case):
     cnt = Counter()
     rnd = random.Random(case['seed'])
     k = case['k']
+    _AL[0] = bool(case.get('al'))
     try:
         if k.startswith('wait'):
             src, m, nt = run_wait(case, cnt, rnd)
